@@ -20,6 +20,7 @@ import (
 	"sync/atomic"
 	"syscall"
 	"time"
+	"unicode/utf8"
 
 	"github.com/DemoHn/Zn/pkg/common"
 	zerr "github.com/DemoHn/Zn/pkg/error"
@@ -1070,6 +1071,28 @@ func doReadAll(req *Req) (resp Resp) {
 			return Resp{Kind: "error", Err: errInfoLight(err)}
 		}
 		stream = fs
+	case "path":
+		// a file that exists on this machine already (its size as the file system reports it may
+		// have nothing to do with what reading it delivers: /proc, /sys): FileStream against a
+		// plain read of the same path
+		raw, rerr := os.ReadFile(req.Text)
+		if rerr != nil {
+			return Resp{Kind: "died", Stderr: "cannot read " + req.Text + ": " + rerr.Error()}
+		}
+		fs, err := zio.NewFileStream(req.Text)
+		if err != nil {
+			return Resp{Kind: "error", Err: errInfoLight(err)}
+		}
+		rs, err := fs.ReadAll()
+		out := Resp{Kind: "ok", Runes: conv(rs), Chunks: [][]int32{conv([]rune(string(raw)))}, Ints: []int{len(raw)}}
+		if err != nil {
+			out.Kind = "error"
+			out.Err = errInfoLight(err)
+		}
+		if !utf8.Valid(raw) {
+			out.Ints = append(out.Ints, -1)
+		}
+		return out
 	case "fifo", "fifo-exec":
 		// the file is a named pipe whose writer delivers the bytes in parts, pausing in between,
 		// so that FileStream sees short reads exactly at the given offsets
